@@ -77,10 +77,15 @@ def gen_cases(rng, tier):
             G.collapse_texts(rng, cfg, p_bot=0.3, p_user=0.5)  # user texts / rewrites that repeat earlier ones
         if rng.random() < 0.25:
             G.random_opts(rng, cfg)  # 1.0: random per-call generation options
+        if rng.random() < 0.15:
+            G.inject_propagating(rng, cfg)  # one turn ends by a propagated failure (LLMCallException / cancellation), the conversation goes on
         cases.append(cfg)
     # user texts that REPEAT around a turn hidden by a fault after `$user_message` was set (see pipeline_cases.REPEAT_PATTERNS)
     cases.extend(G.repeat_cases(rng, tier, "in"))
     cases.extend(G.repeat_cases(rng, tier, "in", patterns=G.REFUSAL_REPEAT[:2]))
+    # calls that end by a failure which propagates out of `generate` mid-turn (LLMCallException, cancellation); the caller goes on from
+    # the last state it was given on the same LLMRails instance: every later user message passes all input rails before anything else
+    cases.extend(G.propagating_cases(rng, tier, "in"))
     # Colang 1.0 generation options per CALL: conversations (state API and messages) that mix calls switching the input rails off
     # with calls that pass no options - every call whose options (explicit or default) enable the input rails runs all of them
     cases.extend(G.options_cases(rng, tier, "in"))
@@ -235,6 +240,10 @@ def _final_user(case, tc):
 def oracle(case, obs):
     for k, (tc, to) in enumerate(zip(case["turns"], obs["turns"])):
         if to["raised"]:
+            if G.P.propagating(tc):
+                # the call ended by a failure that leaves `generate` by design (LLM provider down / cancelled request): nothing came
+                # back; the conversation goes on from the last state the caller was given - every later user message is gated again
+                continue
             return None  # `generate` raising is C03's statement; nothing of this turn can be observed
         msg = turn_oracle(case, tc, to, case["turns"][:k])
         if msg:
